@@ -17,6 +17,16 @@ PANIC_CALLEE_PATTERNS = [
     (r"^(core|std)::cell::RefCell::(borrow|borrow_mut)$", "refcell-borrow"),
     (r"::split_at(_mut)?$", "split_at"),
     (r"^bytes::.*::(advance|split_to|split_off|slice|truncate_front)$", "bytes-range"),
+    (r"^core::slice::<impl \[.*\]>::(copy_from_slice|clone_from_slice|split_at|split_at_mut|swap|chunks|chunks_exact|chunks_mut|windows|rotate_left|rotate_right|copy_within|select_nth_unstable)$", "slice-precondition"),
+    (r"^(alloc|std)::vec::Vec::<.*>::(remove|swap_remove|insert|drain|split_off|splice|extend_from_within)$|^(alloc|std)::vec::Vec::(remove|swap_remove|insert|drain|split_off|splice|extend_from_within)$", "vec-index"),
+    (r"^(alloc|std)::string::String::(remove|insert|insert_str|truncate|split_off|drain|replace_range)$", "string-index"),
+    (r"^core::str::<impl str>::(split_at|split_at_mut)$", "str-index"),
+    (r"^(core|std)::time::Duration::(from_secs_f64|from_secs_f32|mul_f64|mul_f32|div_f64|div_f32)$", "duration-arith"),
+    (r"^core::iter::.*::step_by$|Iterator::step_by$", "iter-precondition"),
+    (r"^core::num::<impl [ui](8|16|32|64|128|size)>::(pow|abs|next_power_of_two|div_euclid|rem_euclid|ilog|ilog2|ilog10|isqrt)$", "int-precondition"),
+    (r"^core::char::(from_digit|methods::<impl char>::from_digit|methods::<impl char>::to_digit)$", "char-radix"),
+    (r"::unwrap_unchecked$|^core::(slice|str)::.*::get_unchecked(_mut)?$|::from_utf8_unchecked$", "unchecked"),
+    (r"^(core|std)::(alloc|boxed)::.*::(assume_init)$", "unchecked"),
     (r"^tokio::task::spawn::spawn$|^tokio::spawn$", None),  # spawn panics outside a runtime: environment, not request data
 ]
 
